@@ -138,6 +138,9 @@ def finish(prop, a, results, units, world, t0, seed, run_harness, extra=None):
         print("CHECKER-ERROR: zero obligations generated for %s (vacuity alarm)" % prop)
         code = 3
     missing = sorted(base - {o["name"] for o in obligations})
+    # the static frame clauses exist once per function reachable from a parse: a function that was renamed or removed takes
+    # its two clauses with it (the unit still covers every function there is; it fails on zero functions)
+    missing = [m for m in missing if not m.endswith(("::writes-no-module-level-state", "::iterates-no-set-in-hash-order"))]
     if missing and code == 0 and not a.units:
         # an obligation of the committed baseline is no longer generated: the function/clause vanished
         for mname in missing[:20]:
